@@ -6,7 +6,7 @@ import torch
 
 from harness.lib import Case
 from harness import common as cm
-from harness.stubs import patched_bisect
+from harness.stubs import NotElementwise, patched_bisect
 from symtorch import api, autograd as ag, ctx as cx, facades, terms as tm
 from symtorch import tensor as st
 from symtorch.api import elem
@@ -24,7 +24,23 @@ META = {
 }
 
 
-def build(c, N, T, H, stepwise, cost_pos, crit_name, eval_mode=False):
+class NoTransactionBand(torch.nn.Module):
+    """prev_hedge clamped into a band [x - w, x + w] whose centre x comes from a trainable layer (pfhedge.nn.Clamp / LeakyClamp)"""
+
+    def __init__(self, lin, leaky):
+        super().__init__()
+        from pfhedge.nn import Clamp, LeakyClamp
+
+        self.lin = lin
+        self.clamp = LeakyClamp(clamped_slope=0.25) if leaky else Clamp()
+
+    def forward(self, input):
+        prev = input[..., [-1]]
+        x = self.lin(input[..., :-1])
+        return self.clamp(prev, x - 0.125, x + 0.125)
+
+
+def build(c, N, T, H, stepwise, cost_pos, crit_name, eval_mode=False, band=None):
     from pfhedge import nn
     from pfhedge.nn.modules.loss import OCE
 
@@ -36,6 +52,8 @@ def build(c, N, T, H, stepwise, cost_pos, crit_name, eval_mode=False):
             h.cost = api.real(c, "cost%d" % i, pos=True)
     feats = ["moneyness", "time_to_maturity"] + (["prev_hedge"] if stepwise else [])
     F = len(feats) + (H - 1 if stepwise else 0)
+    if band is not None:
+        F -= 1  # the layer sees the market features, the band is applied to prev_hedge
     W = api.tensor(c, "W", (H, F), lo=-1, hi=1)
     b = api.tensor(c, "b", (H,), lo=-1, hi=1)
     with facades.real_torch():
@@ -54,7 +72,11 @@ def build(c, N, T, H, stepwise, cost_pos, crit_name, eval_mode=False):
         w = api.tensor(c, "oce_w", (), lo=-1, hi=1)
         crit.w = torch.nn.Parameter(w if c.mode == "sym" else w.clone())
         params.append(crit.w)
-    hedger = cm.make_hedger(c, feats, H, criterion=crit, model=lin)
+    model = lin
+    if band is not None:
+        with facades.real_torch():
+            model = NoTransactionBand(lin, leaky=(band == "leaky"))
+    hedger = cm.make_hedger(c, feats, H, criterion=crit, model=model)
     if eval_mode:
         hedger.eval()
     return deriv, hedge, hedger, params, crit
@@ -69,11 +91,11 @@ def loss_of(c, hedger, deriv, hedge, crit_name):
     return hedger.criterion(hedger.compute_pl(deriv, hedge))
 
 
-def grad_case(N, T, H, stepwise, cost_pos, crit_name, eval_mode=False, sabotage=False):
+def grad_case(N, T, H, stepwise, cost_pos, crit_name, eval_mode=False, sabotage=False, band=None):
     def fn(c):
         c.env["log10_decade"] = 0
         c.env["track_grad"] = True
-        deriv, hedge, hedger, params, crit = build(c, N, T, H, stepwise, cost_pos, crit_name, eval_mode)
+        deriv, hedge, hedger, params, crit = build(c, N, T, H, stepwise, cost_pos, crit_name, eval_mode, band)
         if sabotage:
             # negative control: a second forward hook that stores a detached previous output (what a careless edit of
             # save_prev_output would do); the gradient obligations below must then come back violated
@@ -165,6 +187,9 @@ def cases():
     cs.append(Case("grad/entropic/stepwise/H2", grad_case(2, 3, 2, True, True, "entropic"), encodes=enc, families=fam, timeout=300, max_paths=16,
                    bounds="N=2 T=3 H=2", tier="thorough"))
     cs.append(Case("grad/es/vectorised/H2", grad_case(2, 3, 2, False, True, "es"), encodes=enc, families=fam, timeout=300, max_paths=16, bounds="N=2 T=3 H=2", tier="thorough"))
+    for band in ("hard", "leaky"):
+        cs.append(Case("grad/mse/no-transaction-band/%s" % band, grad_case(2, 3, 1, True, False, "mse", band=band), encodes=enc + ("pfhedge.nn.Clamp/LeakyClamp", "leaky_clamp"),
+                       families=fam, timeout=120, max_paths=16, bounds="N=2 T=3, band model: prev_hedge clamped around a trainable centre"))
     cs.append(Case("control/detached-prev-output", grad_case(2, 3, 1, True, False, "mse", sabotage=True), encodes=enc, families=fam, timeout=120, max_paths=16,
                    bounds="negative control", batch=False))
     cs.append(Case("nograd/es", nograd_case("es"), encodes=enc, families=fam, timeout=60, bounds="compute_loss / price grad flags"))
